@@ -802,6 +802,7 @@ def _params():
 CERT_DIR = os.path.join(os.path.dirname(os.path.abspath(__file__)), "certs")
 SETTLE = 4.0          # virtual seconds left to the server after the fault (> handshake and TLS shutdown timeouts)
 REPLY_TIMEOUT = 5.0   # virtual
+REAL_GRACE = 0.05     # real seconds: a NEGATIVE outcome (no reply / not closed) is re-checked once after this real wait
 
 
 class _Collector(logging.Handler):
@@ -1098,7 +1099,7 @@ class World:
         else:
             c[1].write(line + b"\n")
 
-    async def _recv(self, c):
+    async def _recv(self, c, _again=False):
         """One reply line / datagram, b'' for EOF or reset, None for nothing within REPLY_TIMEOUT (virtual)."""
         try:
             if self.srv == 2:
@@ -1106,7 +1107,16 @@ class World:
                 return data
             return await asyncio.wait_for(c[0].readline(), REPLY_TIMEOUT)
         except (TimeoutError, asyncio.TimeoutError):
-            return None
+            if _again:
+                return None
+            # The virtual clock only advances when no socket is readable, and loopback delivery is synchronous with the
+            # sender unless the kernel defers it (ksoftirqd under heavy network load).  A missing reply is therefore
+            # re-checked once after a REAL wait on the client's socket; this path is only taken for negative outcomes.
+            sock = c if self.srv == 2 else c[1].get_extra_info("socket")
+            with contextlib.suppress(Exception):
+                import select as _select
+                _select.select([sock], [], [], REAL_GRACE)
+            return await self._recv(c, _again=True)
         except (ConnectionError, ssl.SSLError, OSError):
             return b""
 
